@@ -29,7 +29,7 @@ def _lst(items):
 def t_C19_Palette():
     from prompt_toolkit.formatted_text import ansi
     from prompt_toolkit.output import vt100
-    from prompt_toolkit.styles import base, style
+    from prompt_toolkit.styles import base, style, style_transformation
 
     names = base.ANSI_COLOR_NAMES
     aliases = base.ANSI_COLOR_NAMES_ALIASES
@@ -87,6 +87,12 @@ def t_C19_Palette():
     body += "(* styles/style.py _named_colors_lowercase *)\n"
     body += "Definition named_colors_lower : list (list Z * list Z) :=\n  %s.\n\n" % _lst(
         "(%s, %s)" % (zstr(k), zstr(v)) for k, v in named.items())
+    opp = style_transformation.OPPOSITE_ANSI_COLOR_NAMES
+    if not (isinstance(opp, dict) and opp and all(isinstance(k, str) and isinstance(v, str) for k, v in opp.items())):
+        _die("OPPOSITE_ANSI_COLOR_NAMES")
+    body += "(* styles/style_transformation.py *)\n"
+    body += "Definition opposite_ansi_names : list (list Z * list Z) :=\n  %s.\n\n" % _lst(
+        "(%s, %s)" % (zstr(k), zstr(v)) for k, v in opp.items())
     body += "Definition class_names_re_pattern : list Z :=\n  %s.\n" % zstr(pat)
     return emit("C19_Palette", body)
 
